@@ -6,7 +6,7 @@
 
 package fastcgi
 
-//@ unit fcgi_records props=C13,C19 filter=`streamWriter\)\.(Write|Close)$|FCGIClient\)\.(writeBeginRequest|writeEndRequest|writePairs)$|record\)\.read$|fastcgi\.(encodeSize|header\)\.init)$`
+//@ unit fcgi_records props=C13,C19 filter=`streamWriter\)\.(Write|Close)$|FCGIClient\)\.(writeBeginRequest|writeEndRequest|writePairs)$|record\)\.read$|fastcgi\.(encodeSize|header\)\.init)$|fastcgi\.newWriter$`
 //@ func (*FCGIClient).writeRecord
 //@   requires [len_fits] len(content) <= 65535
 
@@ -35,6 +35,8 @@ package fastcgi
 //@   modifies E:uint8
 //@   ensures [arity] (result == 1 || result == 4) && ((result == 1) == (size <= 127))
 //@   ensures [roundtrip] decodeSize(b) == int(old(size))
+//@ func newWriter
+//@   ensures result != nil
 //@ func (*FCGIClient).writePairs
 //@   requires c != nil
 
